@@ -179,14 +179,48 @@ def analyse_function(relfile, qual, node, cls_name):
                     sinks.append(Sink(relfile, qual, n.lineno, 'L%d.reset.%s' % (n.lineno - node.lineno, t.attr), 'Reset', True, 'drops retained state'))
                 elif isinstance(t, ast.Attribute):
                     judge(t.value if not (isinstance(t.value, ast.Name) and t.value.id == 'self') else t, 'L%d.store.%s' % (n.lineno - node.lineno, t.attr), n.lineno)
-                elif isinstance(t, ast.Name) and isinstance(n, ast.AugAssign) and isinstance(n.op, ast.Add):
-                    # x += y mutates in place when x is a list: only a problem for non-fresh x that may be a list
+                elif isinstance(t, ast.Name) and isinstance(n, ast.AugAssign) and isinstance(n.op, (ast.Add, ast.Mult, ast.BitOr, ast.BitAnd, ast.Sub)):
+                    # x += y mutates x in place when x is a list / set / dict-like: a problem for every x that is not a number or an object
+                    # created here - a module level name, or a local that (on some assignment) holds a value that came from the host
                     o = env.get(t.id, 'Global')
                     if o == 'Global':
                         sinks.append(Sink(relfile, qual, n.lineno, 'L%d.augassign.%s' % (n.lineno - node.lineno, t.id), o, False, 'module level name'))
+                    elif o in ('Host', 'FreshElem', 'Self', 'SelfObj') and aliases_host_value(node, t.id, n.lineno, all_args):
+                        sinks.append(Sink(relfile, qual, n.lineno, 'L%d.augassign.%s' % (n.lineno - node.lineno, t.id), o, False,
+                                          '%s may hold an object that came from the host (a list row, a Counter ...): the augmented assignment changes it in place' % t.id))
         elif isinstance(n, ast.Global):
             sinks.append(Sink(relfile, qual, n.lineno, 'L%d.global' % (n.lineno - node.lineno), 'Global', False, 'global statement'))
     return sinks
+
+
+def aliases_host_value(fn, name, line, params):
+    """ may `name` at `line` still be the very object the host supplied (a parameter, an element of a host container, a loop item),
+        as opposed to the result of a call / an arithmetic expression / a literal computed from it?  Flow-insensitive over the
+        assignments of the function, except that a parameter counts as converted once it has been re-bound on an earlier line. """
+    unsafe = False
+    converted_before = False
+    for n in ast.walk(fn):
+        if isinstance(n, ast.Assign):
+            for t in n.targets:
+                if isinstance(t, ast.Name) and t.id == name:
+                    v = n.value
+                    if isinstance(v, (ast.Call, ast.BinOp, ast.UnaryOp, ast.Constant, ast.List, ast.Tuple, ast.Dict, ast.ListComp, ast.JoinedStr, ast.Compare, ast.BoolOp)):
+                        if n.lineno < line:
+                            converted_before = True
+                    elif isinstance(v, ast.IfExp) and all(isinstance(x, (ast.Call, ast.BinOp, ast.Constant, ast.UnaryOp)) for x in (v.body, v.orelse)):
+                        if n.lineno < line:
+                            converted_before = True
+                    else:
+                        unsafe = True          # an alias: another name, an item of a container, an attribute
+        elif isinstance(n, (ast.For, ast.comprehension)):
+            for t in ast.walk(n.target):
+                if isinstance(t, ast.Name) and t.id == name:
+                    unsafe = True
+    if unsafe:
+        return True
+    if name in params:
+        return not converted_before
+    return False
 
 
 def walk_functions(repo):
@@ -238,6 +272,33 @@ def module_state(repo):
 
 
 READ_ONLY_CALLS = ('len', 'isinstance', 'bool', 'str', 'repr', 'sum', 'min', 'max', 'any', 'all', 'sorted', 'list', 'tuple', 'enumerate', 'zip', 'iter')
+
+
+PROCESS_STATE_CALLS = {('sys', 'setrecursionlimit'), ('sys', 'settrace'), ('sys', 'setprofile'), ('sys', 'setswitchinterval'), ('locale', 'setlocale'),
+                       ('os', 'chdir'), ('os', 'putenv'), ('os', 'umask'), ('random', 'seed'), ('random', 'setstate'), ('decimal', 'setcontext'),
+                       ('warnings', 'filterwarnings'), ('warnings', 'simplefilter'), ('signal', 'signal'), ('signal', 'alarm'), ('socket', 'setdefaulttimeout'),
+                       ('gc', 'disable'), ('gc', 'enable'), ('gc', 'set_threshold'), ('time', 'tzset'), ('threading', 'setprofile'), ('threading', 'settrace'),
+                       ('faulthandler', 'enable'), ('atexit', 'register')}
+
+
+def process_state_writes(repo):
+    """ calls that change interpreter- or process-wide settings (recursion limit, locale, seed of the shared generator, signal handlers ...):
+        whatever one evaluation sets is seen by every other parser and thread; restoring it afterwards is not atomic either """
+    out = []
+    for rel, qual, node, cls, tree in walk_functions(repo):
+        for n in ast.walk(node):
+            if isinstance(n, ast.Call) and isinstance(n.func, ast.Attribute) and isinstance(n.func.value, ast.Name) and \
+                    (n.func.value.id, n.func.attr) in PROCESS_STATE_CALLS:
+                out.append(('%s:%s.process-state.%s.%s' % (rel, qual, n.func.value.id, n.func.attr), False,
+                            '%s.%s(...) at line %d changes a process-wide setting' % (n.func.value.id, n.func.attr, n.lineno)))
+            elif isinstance(n, (ast.Assign, ast.AugAssign)):
+                for t in (n.targets if isinstance(n, ast.Assign) else [n.target]):
+                    b = t.value if isinstance(t, (ast.Subscript, ast.Attribute)) else None
+                    while isinstance(b, (ast.Subscript, ast.Attribute)):
+                        b = b.value if not (isinstance(b, ast.Attribute) and isinstance(b.value, ast.Name) and b.value.id in ('os', 'sys')) else b.value
+                    if isinstance(b, ast.Name) and b.id in ('os', 'sys') and isinstance(t, (ast.Subscript, ast.Attribute)):
+                        out.append(('%s:%s.process-state.%s-assignment' % (rel, qual, b.id), False, 'assignment into %s at line %d' % (ast.unparse(t), n.lineno)))
+    return out
 
 
 def mutable_defaults(repo):
